@@ -398,6 +398,8 @@ _mix = {k: globals()[k] for k in ("scenarios", "runner", "specs", "classes", "no
 def _aio_print_stream(rng):
     while True:
         for scn in _c18.scenarios(rng, 8, "quick"):
+            if scn.get("sliced"):
+                continue
             n = 0
             for o in scn["ops"]:
                 if o["op"] == "sch":
